@@ -211,6 +211,10 @@ def render_program(prog, layout, rng):
             rng.shuffle(allst)
             decl, body = [], allst
     comments = layout % 4 in (0, 2) and nl != " "
+    if comments and layout % 8 == 2:
+        # comments inside and after statements (never containing `);` or `endmodule`)
+        body = [b.replace("(", "( /* c */", 1) + " // trailing comment , with ( tokens = inside" for b in body]
+        decl = [d + " /* after ; */" for d in decl]
     lines.append(f"module {prog['name']}{sp}({sp}" + f"{sp},{sp}".join(ident(p) for p in ports) + f"{sp});")
     if comments:
         lines.append("// generated netlist: declarations")
